@@ -130,8 +130,15 @@ pub fn eval_from_bytes_bitcoin(bytes: &[u8], version_id: u8) -> EvaluatedScript 
 
     // For OP_RETURN and provably unspendable scripts there is no point in parsing the address
     if script.is_op_return() {
-        // OP_RETURN 13 <data>
-        let data = String::from_utf8(script.to_bytes().into_iter().skip(2).collect());
+        // OP_RETURN <data>: the payload is the single data push (direct or OP_PUSHDATA1/2/4)
+        let mut instructions = script.instructions().skip(1);
+        let data = match (instructions.next(), instructions.next()) {
+            (Some(Ok(Instruction::PushBytes(bytes))), None) => {
+                String::from_utf8(bytes.as_bytes().to_vec())
+            }
+            // anything else than a single push: keep the raw bytes after the first two
+            _ => String::from_utf8(script.to_bytes().into_iter().skip(2).collect()),
+        };
         let pattern = ScriptPattern::OpReturn(data.unwrap_or_else(|_| String::from("")));
         return EvaluatedScript::new(None, pattern);
     } else if is_provable_unspendable(script) {
